@@ -1,4 +1,4 @@
-// verif:properties C09
+// verif:properties C09 C01 C06
 package uhppote
 
 import (
@@ -116,6 +116,12 @@ func VerifC09_SendUDPReply()   { c09Directed(1, false, "SendUDP") }
 func VerifC09_SendTCPStall()   { c09Directed(0, true, "SendTCP") }
 func VerifC09_SendTCPReply()   { c09Directed(1, true, "SendTCP") }
 
+// C01 / C06: one call, one request on the wire - whenever the reply comes, or if none comes (no retransmission)
+func VerifC01_OneRequestOnTheWireUDP()       { c09Directed(1, false, "SendUDP") }
+func VerifC01_OneRequestOnTheWireBroadcast() { c09BroadcastTo(1) }
+func VerifC06_OneRequestOnTheWireUDP()       { c09Directed(1, false, "SendUDP") }
+func VerifC06_OneRequestOnTheWireBroadcast() { c09BroadcastTo(1) }
+
 // the broadcast path: stray datagrams are skipped until the deadline, which they never extend
 func c09Accept(b []byte) bool { return len(b) == 64 && b[0] == 0x17 }
 
@@ -136,6 +142,7 @@ func c09BroadcastTo(k int) {
 	} else {
 		verifAssert(err != nil, "BroadcastTo: no acceptable reply before the deadline is an error")
 	}
+	verifAssert(verifPeerRequests() == 1 && verifNetStray() == 0, "BroadcastTo: exactly one request leaves, nothing goes anywhere else")
 	verifReach("c09.BroadcastTo")
 }
 
